@@ -262,7 +262,11 @@ def eos_cells(tier, seed, template_only=False, nv=12, window=False):
                     if tier == "quick" and k % 3 != (seed % 3):
                         continue
                     Tn = tns[k % len(tns)]
-                    al = (1 - psi) / 3 + dl
+                    # domain of the template equation of state: alpha_n above (1 - psi_n)/3 (positive vacuum energy) and, when
+                    # the sound speed behind exceeds the one ahead, above (mu - nu)/(3 mu) as well (the template solver's own
+                    # lower bound on alpha; below it its matching returns NaN)
+                    mu, nu = 1 + 1 / cs2, 1 + 1 / cb2
+                    al = max((1 - psi) / 3, (mu - nu) / (3 * mu)) + dl
                     cells.append(dict(eos="template", Tn=Tn, par=dict(alN=al, psiN=psi, cs2=cs2, cb2=cb2, scale=float(10 ** rng.uniform(-2, 2))),
                                       tag=f"dal{dl}_psi{psi}_cs{cs2:.3f}_cb{cb2:.3f}_Tn{Tn}", nv=nv, template=True))
     if not template_only:
